@@ -24,4 +24,6 @@ MUTANTS = [
     {"id": "c07-bnmap-copy-filtered", "expect": "fire", "edits": [(G, "                self.bn_map[k] = (rbranch, rbuild)", "                if rbuild.rcommit.is_explicit:\n                    self.bn_map[k] = (rbranch, rbuild)")]},
     {"id": "c07-n-bnmap-copy-first-wins", "expect": "silent", "edits": [(G, "                self.bn_map[k] = (rbranch, rbuild)", "                if k not in self.bn_map:\n                    self.bn_map[k] = (rbranch, rbuild)")]},
     {"id": "c07-n-bnmap-loopvar", "expect": "silent", "edits": [(G, "                        for bn in buildnums:\n                            bn_map[bn.as_tuple()] = new_rbuild", "                        for num in buildnums:\n                            bn_map[num.as_tuple()] = new_rbuild")]},
+    {"id": "c07-trivial-bumps-dropped", "expect": "fire", "edits": [(G, "            new_rbuild = RBuild(\n                new_rcommit, parent_rbuilds, rcommits_in_build, components_bumps)", "            components_bumps = {r: b for r, b in components_bumps.items() if not b.is_trivial()}\n            new_rbuild = RBuild(\n                new_rcommit, parent_rbuilds, rcommits_in_build, components_bumps)")]},
+    {"id": "c07-bump-entry-only-when-moved", "expect": "fire", "edits": [(G, "            components_bumps[repo_id] = ComponentBump(\n                from_builnums, cur_component_bn,\n                from_rbuilds, cur_component_rbuild)", "            if from_builnums != [cur_component_bn]:\n                components_bumps[repo_id] = ComponentBump(\n                    from_builnums, cur_component_bn,\n                    from_rbuilds, cur_component_rbuild)")]},
 ]
